@@ -43,7 +43,8 @@ OBLIGATIONS = {"intersect": 100, "intersect:partial-left": 5,
                "voronoi:more-cells-than-points": 30,
                "voronoi:more-points-than-cells": 5,
                "voronoi:clustered-points": 10, "voronoi:grid-origin-not-0": 30,
-               "intersect:reused-object-other-set": 30, "intersect:split-grid": 50}
+               "intersect:reused-object-other-set": 30, "intersect:split-grid": 50,
+               "intersect:target-dtype": 30}
 
 
 def mods():
@@ -74,8 +75,13 @@ def run_intersect_case(ctx, case):
     if case.get("delineated"):
         ctx.tag("intersect:delineated")
     cat = make_catchment(fine, cells, filled_cells)
+    # the grid the weights are wanted for is often a mask or a land-cover grid
+    cdt = [np.float64, np.int32, np.float64, np.uint8, np.float32, np.int64][
+        (len(cells) + coarse["ncols"]) % 6]
+    if cdt is not np.float64:
+        ctx.tag("intersect:target-dtype")
     cg = g.Grid("coarse", coarse["ncols"], coarse["nrows"], cellsize=coarse["csz"],
-                xllcorner=coarse["xll"], yllcorner=coarse["yll"])
+                xllcorner=coarse["xll"], yllcorner=coarse["yll"], dtype=cdt)
     # the same catchment object answers for both cell sets, in any order of asking
     seq = [first, not first, first] if case.get("reuse", True) else [first]
     if len(seq) > 1 and set(filled_cells) != set(cells):
